@@ -859,44 +859,45 @@ func ruleR15n(c *Ctx, r *Report) {
 // ---- R16n: no I/O adapter type beside the audited ones in internal/io ---------------------------
 
 func ruleR16n(c *Ctx, r *Report) {
-	p := c.Pkgs[pkgIntIO]
-	if p == nil {
-		r.InfraFail("package %s not loaded", pkgIntIO)
-		return
-	}
 	n := 0
 	var bad []string
-	scope := p.Types.Scope()
-	for _, name := range scope.Names() {
-		tn, ok := scope.Lookup(name).(*types.TypeName)
-		if !ok {
+	for _, pp := range libPkgs {
+		p := c.Pkgs[pp]
+		if p == nil {
 			continue
 		}
-		if _, isIface := tn.Type().Underlying().(*types.Interface); isIface {
-			continue
-		}
-		n++
-		if baselineTypes[pkgIntIO+"\t"+name] {
-			continue
-		}
-		ms := types.NewMethodSet(types.NewPointer(tn.Type()))
-		for i := 0; i < ms.Len(); i++ {
-			switch ms.At(i).Obj().Name() {
-			case "Write", "WriteAt", "Read", "ReadAt", "ReadByte", "Seek":
-				// only methods declared on the type itself (not promoted from an audited one)
-				if len(ms.At(i).Index()) == 1 {
-					bad = append(bad, fmt.Sprintf("type %s (not in the pinned tree) implements %s", name, ms.At(i).Obj().Name()))
+		scope := p.Types.Scope()
+		for _, name := range scope.Names() {
+			tn, ok := scope.Lookup(name).(*types.TypeName)
+			if !ok {
+				continue
+			}
+			if _, isIface := tn.Type().Underlying().(*types.Interface); isIface {
+				continue
+			}
+			n++
+			if baselineTypes[pp+"\t"+name] {
+				continue
+			}
+			ms := types.NewMethodSet(types.NewPointer(tn.Type()))
+			for i := 0; i < ms.Len(); i++ {
+				switch ms.At(i).Obj().Name() {
+				case "Write", "WriteAt", "Read", "ReadAt", "ReadByte", "Seek":
+					// only methods declared on the type itself (not promoted from an audited one)
+					if len(ms.At(i).Index()) == 1 {
+						bad = append(bad, fmt.Sprintf("type %s.%s (not in the pinned tree) implements %s", shortPkg(pp), name, ms.At(i).Obj().Name()))
+					}
 				}
 			}
 		}
 	}
 	sort.Strings(bad)
-	r.Count("concrete types of internal/io", n)
+	r.Count("concrete types of the library packages", n)
 	if n < 5 {
 		r.Undec("audited-adapters-only@v2/internal/io", "-", fmt.Sprintf("only %d types seen", n))
 		return
 	}
-	r.Check(len(bad) == 0, "audited-adapters-only@v2/internal/io", "-", "every reader/writer adapter of internal/io is one of the pinned tree's (whose byte accounting R03d/R03j/R16d check)", strings.Join(bad, "; ")+": bytes that go through an adapter nothing audits are bytes nothing counts, bounds or positions — a writer that changes where or how a failed write is retried is exactly how an archive gets overwritten or a failure swallowed")
+	r.Check(len(bad) == 0, "audited-adapters-only@v2/internal/io", "-", "every type of the library that reads, writes or seeks is one of the pinned tree's (whose byte accounting R03d/R03j/R16d check)", strings.Join(bad, "; ")+": bytes that go through an adapter nothing audits are bytes nothing counts, bounds or positions — a writer that changes where or how a failed write is retried is exactly how an archive gets overwritten or a failure swallowed")
 }
 
 // ---- R17f/R17g: a refused path is not handed out, and the refusal is what gets tested ------------
@@ -1177,16 +1178,44 @@ func receiverWrites(c *Ctx, fn *ssa.Function) string {
 		return ""
 	}
 	recv := fn.Params[0]
-	if _, isPtr := recv.Type().Underlying().(*types.Pointer); !isPtr {
-		return ""
-	}
+	_, recvIsPtr := recv.Type().Underlying().(*types.Pointer)
 	found := ""
 	for _, g := range withAnon(fn) {
 		eachInstr(g, func(in ssa.Instruction) {
 			if found != "" {
 				return
 			}
-			rooted := func(v ssa.Value) bool { return rootedAt(fn, g, v, recv) }
+			rooted := func(v ssa.Value) bool { return recvIsPtr && rootedAt(fn, g, v, recv) }
+			// a slice read from the receiver shares its backing array with the caller's, also when
+			// the receiver itself was passed by value
+			sliceOfRecv := func(v ssa.Value) bool {
+				if _, isSlice := v.Type().Underlying().(*types.Slice); !isSlice {
+					return false
+				}
+				isRecv := func(b ssa.Value) bool {
+					if b == ssa.Value(recv) {
+						return true
+					}
+					if al, ok := b.(*ssa.Alloc); ok {
+						for _, st := range storesTo(al) {
+							if st.Val == ssa.Value(recv) {
+								return true
+							}
+						}
+					}
+					return false
+				}
+				for src := range flowSources(canon(v)) {
+					if fa, ok := src.(*ssa.FieldAddr); ok && isRecv(fa.X) {
+						if fv := fieldVar(fa.X.Type(), fa.Field); fv != nil {
+							if _, isSl := fv.Type().Underlying().(*types.Slice); isSl {
+								return true
+							}
+						}
+					}
+				}
+				return false
+			}
 			switch x := in.(type) {
 			case *ssa.Store:
 				if rooted(x.Addr) {
@@ -1198,6 +1227,20 @@ func receiverWrites(c *Ctx, fn *ssa.Function) string {
 				}
 			case ssa.CallInstruction:
 				cc := x.Common()
+				// library routines that reorder or overwrite the slice they are given
+				if tf := calleeFunc(cc); tf != nil && tf.Pkg() != nil && len(cc.Args) > 0 {
+					mut := false
+					switch tf.Pkg().Path() {
+					case "sort":
+						mut = tf.Name() == "Slice" || tf.Name() == "SliceStable" || tf.Name() == "Sort" || tf.Name() == "Stable" || tf.Name() == "Strings" || tf.Name() == "Ints"
+					case "slices":
+						mut = strings.HasPrefix(tf.Name(), "Sort") || tf.Name() == "Reverse"
+					}
+					if mut && (rooted(stripIface(cc.Args[0])) || sliceOfRecv(stripIface(cc.Args[0]))) {
+						found = c.Pos(x.Pos())
+						return
+					}
+				}
 				f, _ := cc.Value.(*ssa.Function)
 				if f == nil || f.Blocks == nil || f.Pkg == nil || !isRepoPkg(f.Pkg.Pkg.Path()) {
 					return
